@@ -307,6 +307,7 @@ func runC07(r *core.Run) (bool, string) {
 	t4 := time.Now()
 	c.runMutants()
 	c.runMultiPackage()
+	c.runFileForms()
 	t5 := time.Now()
 	r.Set("phase_seconds", map[string]float64{"witnesses": t1.Sub(t0).Seconds(), "stdlib": t2.Sub(t1).Seconds(), "catalogue": t3.Sub(t2).Seconds(), "mixtures": t4.Sub(t3).Seconds(), "mutants": t5.Sub(t4).Seconds()})
 
